@@ -476,9 +476,16 @@ func isReorgReturn(r *ssa.Return, errReorg *ssa.Global) bool {
 // than branched on).  A boolean helper of the region that can only answer one
 // way in the scenario contributes the other arm of its call site to the cuts.
 func liftBoolHelpers(reg *Region, cuts *Cuts, assumed map[ssa.Value]bool) *Cuts {
+	return liftBoolHelpersExcept(reg, cuts, assumed, nil)
+}
+
+func liftBoolHelpersExcept(reg *Region, cuts *Cuts, assumed map[ssa.Value]bool, except *ssa.Function) *Cuts {
 	funcs := reg.Funcs()
 	for i := len(funcs) - 1; i >= 1; i-- { // deepest helpers first
 		h := funcs[i]
+		if h == except {
+			continue
+		}
 		cs, ok := reg.site[h].(*ssa.Call)
 		if !ok {
 			continue
